@@ -33,8 +33,9 @@ func gcsConcCfg(mix string, relaxed, twoStep bool, spec string, invs, props []st
 var gcsConcInvs = []string{"OneWinner", "SomeWinner", "NoLostPatch", "PatchOnMatch", "ReadConsistent"}
 
 var (
-	concBucket = j.S("bkt")
-	concObj    = j.S("dir/obj.txt")
+	concBucket  = j.S("bkt")
+	concBucket2 = j.S("bkt-2")
+	concObj     = j.S("dir/obj.txt")
 )
 
 func gcsConcOp(kind, who string, n j.B) gcs.Op {
@@ -64,6 +65,14 @@ func gcsConcOp(kind, who string, n j.B) gcs.Op {
 		return gcs.Op{Ev: "Compose", B: concBucket, N: n, Srcs: []gcs.Src{{N: j.S("src1"), Gm: gcs.Unset()}, {N: j.S("src2"), Gm: gcs.Unset()}}, Attrs: []gcs.KV{{K: "ct", V: j.S("text/" + who)}}, Conds: nc}
 	case "copy":
 		return gcs.Op{Ev: "Copy", B: concBucket, N: j.S("src1"), Db: concBucket, Dn: n}
+	case "xcopy": // from another bucket
+		return gcs.Op{Ev: "Copy", B: concBucket2, N: j.S("src3"), Db: concBucket, Dn: n}
+	case "composeIfGen":
+		nc.Gm = gcs.Cond{K: "val", Sym: "cur"}
+		return gcs.Op{Ev: "Compose", B: concBucket, N: n, Srcs: []gcs.Src{{N: j.S("src1"), Gm: gcs.Unset()}, {N: j.S("src2"), Gm: gcs.Unset()}}, Attrs: []gcs.KV{{K: "ct", V: j.S("text/" + who)}}, Conds: nc}
+	case "composeIfAbsent":
+		nc.Gm = gcs.Cond{K: "val", Sym: "zero"}
+		return gcs.Op{Ev: "Compose", B: concBucket, N: n, Srcs: []gcs.Src{{N: j.S("src2"), Gm: gcs.Unset()}, {N: j.S("src1"), Gm: gcs.Unset()}}, Attrs: []gcs.KV{{K: "ct", V: j.S("text/" + who)}}, Conds: nc}
 	}
 	panic(kind)
 }
@@ -80,6 +89,8 @@ func gcsConcSetup(present bool) []gcs.Op {
 		ops = append(ops, gcs.Op{Ev: "GetMeta", B: concBucket, N: concObj}) // registers the name for the read-backs
 	}
 	ops = append(ops, gcs.Op{Ev: "GetMeta", B: concBucket, N: j.S("other")})
+	ops = append(ops, gcs.Op{Ev: "CreateBucket", B: concBucket2},
+		gcs.Op{Ev: "Upload", B: concBucket2, N: j.S("src3"), Proto: "media", Content: j.S("S3 from the other bucket"), Decl: "none", Attrs: []gcs.KV{{K: "ct", V: j.S("text/s3")}}, Conds: nc})
 	return ops
 }
 
@@ -356,7 +367,15 @@ func checkC07(c *Ctx) {
 		}
 		for n, s := range append(bad, good...) {
 			var procs []gcsconc.Proc
+			// the writers of the protocol model stand for every kind of request that commits under the object lock:
+			// in two of three jobs one writer is a compose onto, or a copy from another bucket onto, the same object
+			subst := map[string][2]string{"putIfGen": {"composeIfGen", "xcopy"}, "putIfAbsent": {"composeIfAbsent", "xcopy"}, "put": {"composeIfGen", "xcopy"}}
+			substituted := false
 			for i, k := range gcsMixKinds[mix] {
+				if alt, ok := subst[k]; ok && !substituted && n%3 != 0 && (i+n/3)%2 == 0 {
+					k = alt[n%3-1]
+					substituted = true
+				}
 				procs = append(procs, gcsconc.Proc{Name: procName(i + 1), Op: gcsConcOp(k, procName(i+1), concObj)})
 			}
 			var sched []string
